@@ -80,15 +80,15 @@ Definition set_now s n :=
      items := items s; putq := putq s; putres := putres s; getq := getq s; getres := getres s |}.
 
 (* admission tests of _do_reserve_put / _do_reserve_get (tie B regenerates these from source) *)
-Definition admit_put (s : store) : bool := length (putres s) + length (items s) <? cap s.
-Definition admit_get (s : store) : bool := length (getres s) <? length (items s).
+Definition allow_put (s : store) : bool := length (putres s) + length (items s) <? cap s.
+Definition allow_get (s : store) : bool := length (getres s) <? length (items s).
 
 (* _trigger_reserve_put: the loop always breaks after the first _do_reserve_put
    (which returns None), so exactly the head of the queue is tried *)
 Definition trig_put (s : store) : store * list tok :=
   match putq s with
   | [] => (s, [])
-  | r :: q => if admit_put s
+  | r :: q => if allow_put s
               then (set_putres (set_putq s q) (putres s ++ [r]), [r_tok r])
               else (s, [])
   end.
@@ -104,7 +104,7 @@ Definition trig_get1 (s : store) : store * list tok :=
   match getq s with
   | [] => (s, [])
   | r :: q =>
-      if admit_get s then
+      if allow_get s then
         let k := length (getres s) in
         match split_first (fmatch (now s) (tdelay s) (eff_flt s r)) (skipn k (items s)) with
         | Some (a, x, b) =>
